@@ -491,7 +491,7 @@ class Bus (objects.DBusObject):
         for item in rule.split(','):
             if not item:
                 continue  # a rule without constraints matches everything
-            k, v = item.split('=')
+            k, v = item.split('=', 1)
 
             value = v[1:-1]
 
